@@ -1,19 +1,49 @@
-/* C12: environment stub for reallocarray (cbmc 6.11 has no model; memchr/memrchr/memmem come from lib/libc_models.h).
- * CBMC only: overflow check as in the man page, then realloc, which is assumed to succeed (allocation failure is
- * outside C12).  Under -DREPLAY glibc's reallocarray is used.  Include AFTER verif.h and BEFORE any liblcb header. */
+/* C12: environment stubs (CBMC only; under -DREPLAY glibc is used unchanged).
+ *  - reallocarray: cbmc 6.11 has no model (memchr/memrchr/memmem come from lib/libc_models.h).  Overflow check as in the
+ *    man page, then realloc.
+ *  - calloc / reallocarray with a data-dependent size: CBMC's memory model blows up on objects of symbolic size
+ *    (18 GB on a 3-byte INI file).  The stubs case-split on the requested size over the range the harness declares
+ *    (C12_SZ_LO..C12_SZ_HI bytes for calloc, 0..C12_NM_HI members for reallocarray) and allocate an object of exactly that
+ *    concrete size in each case, so a one-byte overrun is still an object-bounds violation.  Sizes outside the declared
+ *    range fall through to the plain call.
+ *  - allocation never fails (allocation failure is outside C12).
+ * Include AFTER verif.h and BEFORE any liblcb header. */
 #ifndef C12_LIBC_STUBS_H
 #define C12_LIBC_STUBS_H
 #include <string.h>
 #include <stdlib.h>
 #include <errno.h>
 #ifndef REPLAY
-static void *v_reallocarray(void *p, size_t nm, size_t sz) {
+#ifndef C12_SZ_LO
+#define C12_SZ_LO 1
+#define C12_SZ_HI 0
+#endif
+#ifndef C12_NM_HI
+#define C12_NM_HI 0
+#endif
+static void *v_calloc(size_t nm, size_t sz) {
 	size_t t;
+	void *r;
 	if (__builtin_mul_overflow(nm, sz, &t)) { errno = ENOMEM; return (NULL); }
-	void *r = realloc(p, t);
+	for (size_t k = C12_SZ_LO; k <= C12_SZ_HI; k++) {
+		if (t == k) { r = calloc(1, k); __CPROVER_assume(r != NULL); return (r); }
+	}
+	r = calloc(nm, sz);
 	__CPROVER_assume(r != NULL);
 	return (r);
 }
+static void *v_reallocarray(void *p, size_t nm, size_t sz) {
+	size_t t;
+	void *r;
+	if (__builtin_mul_overflow(nm, sz, &t)) { errno = ENOMEM; return (NULL); }
+	for (size_t k = 1; k <= C12_NM_HI; k++) {
+		if (nm == k) { r = realloc(p, k * sz); __CPROVER_assume(r != NULL); return (r); }
+	}
+	r = realloc(p, t);
+	__CPROVER_assume(r != NULL);
+	return (r);
+}
+#define calloc v_calloc
 #define reallocarray v_reallocarray
 #endif /* !REPLAY */
 #endif
